@@ -16,6 +16,10 @@ def corpus():
             if f.endswith(".jsonl"):
                 for l in open(os.path.join(d, f)):
                     if l.strip():
-                        extra.append(json.loads(l))
+                        e = json.loads(l)
+                        # minimised past failures: one entry per dialect, so that checks that
+                        # sample one accepting dialect per text still run every listed dialect
+                        for dn in e["dialects"]:
+                            extra.append({"sql": e["sql"], "dialects": [dn]})
         _cache = extra + out
     return _cache
